@@ -59,3 +59,10 @@ package encoder
 //@   let c = decoder.VERSIONS[v-1].alignmentPatternCenters
 //@   ensures len(matrixUtil_POSITION_ADJUSTMENT_PATTERN_COORDINATE_TABLE) == 40 && len(row) == 7 && len(c) <= 7
 //@   ensures row[k] == (k < len(c) ? c[k] : -1)
+
+// assumed (not verified) summary of the QR encoder proper, used by the writer front end: a symbol with a well-formed
+// module matrix, or an error
+//@ func Encoder_encode(content string, ecLevel decoder.ErrorCorrectionLevel, hints map[gozxing.EncodeHintType]interface{}) (r *QRCode, e gozxing.WriterException)
+//@   trusted
+//@   ensures (r != nil) != (e != nil)
+//@   ensures r != nil ==> r.matrix != nil && r.matrix.width >= 1 && r.matrix.height >= 1 && len(r.matrix.bytes) == r.matrix.height && (forall y int :: 0 <= y && y < r.matrix.height ==> len(r.matrix.bytes[y]) == r.matrix.width)
